@@ -23,8 +23,8 @@ __CPROVER_requires(calHshChain == NULL || calHshChain == &g_vr_cal)
 __CPROVER_requires(inspector == NULL || (g_lift_dep ? inspector == wasDeprecatedAt : inspector == wasObsoleteAt))
 __CPROVER_requires(status == NULL || status == &g_lift_st)
 __CPROVER_requires(g_vr_cal.hashChain == NULL || g_vr_cal.hashChain == &g16_list)
-__CPROVER_requires(g16.calls == 0 && !g16.fail && !g16.na && g16_len <= G16_MAX_LIST)
-__CPROVER_requires((g16_link.imprint == NULL || g16_link.imprint == &g_vr_h[VR_H_LINK]) && 0 <= g_vr_h_alg[VR_H_LINK] && g_vr_h_alg[VR_H_LINK] <= 255)
+__CPROVER_requires(g16.calls == 0 && g16.lefts == 0 && !g16.fail && !g16.na && g16_len <= G16_MAX_LIST)   /* lefts, has_imprint: audit ghosts of env/ghost_vrule_cal16.h (builderY) */
+__CPROVER_requires((g16.has_imprint ? g16_link.imprint == &g_vr_h[VR_H_LINK] : g16_link.imprint == NULL) && 0 <= g_vr_h_alg[VR_H_LINK] && g_vr_h_alg[VR_H_LINK] <= 255)
 /* missing argument: refused, nothing read */
 __CPROVER_ensures(IMPLIES(!LIFT_CCS_ARGS_OK(calHshChain, inspector, status), __CPROVER_return_value == KSI_INVALID_ARGUMENT && g16.calls == 0))
 /* chain without link list: refused */
